@@ -22,6 +22,22 @@ def abs_msg(m):
     return [m[0], m[1], [abs_control(c) for c in m[2]]]
 
 
+def relay_check(obj):
+    """obj came out of the decoder: the bytes produced for it must be strict RFC 4511 of what its fields show."""
+    try:
+        again = obj.pack(msgs.packing_options())
+        shown = abs_msg(msgs.r_msg(obj))
+    except Exception as e:  # noqa: BLE001
+        return f"relay: packing a message that came out of the decoder raised {type(e).__name__}"
+    try:
+        got = rfc4511.decode_strict(bytes(again))
+    except rfc4511.Bad as e:
+        return f"relay: independent RFC 4511 decoder rejects the bytes produced for a received message: {e}"
+    if canon(got) != canon(shown):
+        return "relay: the bytes produced for a received message denote a different message than its fields show"
+    return None
+
+
 class C03(C01):
     id = "C03"
     prop_file = "Props/C03"
@@ -30,7 +46,7 @@ class C03(C01):
         "the structured message values of C01 (all 9 kinds, every filter choice, all control forms, both credential "
         "choices); the bytes produced by the implementation are (a) compared with the extracted model's encoder and (b) "
         "decoded by an independent strict decoder written from the RFC 4511 ASN.1 module, whose result must equal the "
-        "abstract message; non-trivial as in C01"
+        "abstract message; relay family: each message is also encoded as a peer may (incl. sloppy paged-results values), decoded by the implementation and the returned object packed again - those bytes go through the same strict decoder; non-trivial as in C01"
     )
     assumptions = [
         "SIZE(1..MAX) and value-range subtype constraints (e.g. version 1..127, empty Referral written by the server helpers) are not enforced: the property lists tag/form/length/boolean/default/integer rules",
@@ -52,6 +68,56 @@ class C03(C01):
         r = res_of(lambda: msgs.pack(c["msg"]))
         return [r[1], [abs_msg(c["msg"])] if r[0] == 0 else []]
 
+    def extra_checks(self, tier, seed, ctx):
+        """Relay family: the property speaks of the bytes produced for ANY message object, also one that came out of
+        the decoder.  Every case is encoded the way a peer may (oracle encoder, random length forms / TRUE octets /
+        explicit defaults; the value of a paged-results control written with long-form lengths, a padded INTEGER or
+        octets behind the inner SEQUENCE - forms the library's decoder forgives), decoded by the implementation, and
+        the OBJECT THAT CAME BACK is packed: those bytes must satisfy the strict decoder and denote the abstract
+        message the object's public fields show."""
+        import random
+
+        from oracle import ber
+        from props.c01 import decode, known_oid_generic
+
+        rng = random.Random(seed ^ 0xC03)
+        out = []
+        self.relayed = 0
+        for c in ctx["cases"]:
+            m = c["msg"]
+            if m[1][0] == 2 or known_oid_generic(m) or (len(ctx["cases"]) > 4000 and rng.random() < 0.7):
+                continue
+            am = abs_msg(m)
+            for i, ctl in enumerate(m[2]):
+                if ctl[0] == 1 and rng.random() < 0.7:
+                    size, cookie = ctl[2], ctl[3]
+                    integer = ber.enc_int(size)
+                    r = rng.random()
+                    if r < 0.4 and size >= 0:
+                        integer = b"\x00" + integer          # 02 02 00 64
+                    elif r < 0.5 and size < 0:
+                        integer = b"\xff" + integer
+                    inner = ber.tlv(0, False, 2, integer, rng.choice([0, 0, 1, 4])) + ber.tlv(0, False, 4, cookie, rng.choice([0, 0, 2, 4]))
+                    val = ber.tlv(0, True, 16, inner, rng.choice([0, 1, 4]))
+                    if rng.random() < 0.3:
+                        val += bytes(rng.getrandbits(8) for _ in range(rng.randint(1, 3)))
+                    am[2][i] = [0, msgs.OID_PAGED, bool(ctl[1]), [val]]
+            try:
+                data = rfc4511.encode(am, rfc4511.RandomStyle(rng, long_len=0.3, odd_true=0.5, defaults=0.5, trail=0.0))
+                obj, rest = decode(data)
+            except Exception:  # noqa: BLE001
+                continue  # whether the decoder must accept this form is C04's question
+            self.relayed += 1
+            what = relay_check(obj)
+            if what:
+                out.append(({**c, "relay_input": data}, what))
+                if len(out) >= 3:
+                    break
+        return out
+
+    def extra_evidence(self, ctx):
+        return {"relayed_messages_checked": getattr(self, "relayed", 0)}
+
     def finding_key(self, c, what):
         if "UnbindRequest is [APPLICATION 2] NULL" in what:
             return "unbind-constructed"
@@ -62,6 +128,12 @@ class C03(C01):
     def oracle(self, c, ans):
         if ans and ans[0] == "!timeout":
             return "timeout"
+        if c.get("relay_input") is not None:
+            from props.c01 import decode
+
+            ri = c["relay_input"]
+            obj, _ = decode(bytes.fromhex(ri["x"]) if isinstance(ri, dict) else bytes(ri))
+            return relay_check(obj)
         w = ans[0]
         if not isinstance(w, dict):
             return f"encoding raised code {w}"
